@@ -32,6 +32,18 @@ def d_rnd(rng, n):
     return tuple(g)
 
 
+def d_dense(rng, n):
+    """Small graphs with many cycles and cross edges (several entries into a cycle, edges into
+    finished subtrees): where the order in which Tarjan's algorithm meets the edges matters."""
+    names = [str(i) for i in range(n)]
+    g = []
+    for i in range(n):
+        k = rng.choice([1, 2, 2, 2, 3])
+        jt = tuple(dict.fromkeys(rng.choice(names) for _ in range(k)))
+        g.append((jt, ()))
+    return ("light", tuple(g))
+
+
 def intern(strs):
     return {s: i + 1 for i, s in enumerate(sorted(strs))}
 
@@ -42,6 +54,9 @@ def export_item(item):
     from numba_scfg.core.datastructures.basic_block import BasicBlock
     from numba_scfg.core import transformations as T
 
+    light = bool(item) and item[0] == "light"   # components, dominators and a few reachability pairs only
+    if light:
+        item = item[1]
     n = len(item)
     keys = [str(i) for i in range(n)]
     strs = set(keys) | {EXT, "y", "zz"}
@@ -66,7 +81,9 @@ def export_item(item):
         rows.append([30, 0])
     # subset queries
     subsets = []
-    if n <= 4:
+    if light:
+        pass
+    elif n <= 4:
         for r in range(0, n + 1):
             subsets += [set(c) for c in itertools.combinations(keys, r)]
     else:
@@ -93,9 +110,9 @@ def export_item(item):
     # reachability
     ends = keys + [EXT]
     pairs = [(a, b) for a in keys + [EXT] for b in ends]
-    if n > 4:
+    if n > 4 or light:
         rng = random.Random(n * 31 + len(repr(item)))
-        pairs = rng.sample(pairs, 20)
+        pairs = rng.sample(pairs, min(len(pairs), 6 if light else 20))
     for a, b in pairs:
         try:
             r = 1 if sc.is_reachable_dfs(a, b) else 0
@@ -128,6 +145,8 @@ def items_for(tier, seed):
     rng = random.Random(seed)
     for _ in range(200 if tier == "quick" else 6000):
         items.append(d_rnd(rng, rng.randrange(2, 31)))
+    for _ in range(4000 if tier == "quick" else 80000):
+        items.append(d_dense(rng, rng.randrange(4, 10)))
     if tier == "thorough":
         items += list(d_exh(3, 3))
         items += list(itertools.islice(d_exh(4, 2), 0, None, 3))
